@@ -76,6 +76,17 @@ type op struct {
 	Order   []int     `json:"order"`   // peerfail: the order in which the survivors are told
 	Stagger bool      `json:"stagger"` // peerfail: deliver gossip between the notifications
 	Cut     int       `json:"cut"`     // connect / pub: the packet arrives in two segments, cut after this many bytes; the operations in B run in between
+	Mlen    int       `json:"mlen"`    // segs: the body length of this packet in the model (FramingGen)
+	Streams []stream  `json:"streams"` // segs: the packets of each connection's stream
+	Plan    []seg     `json:"plan"`    // segs: the delivery schedule, in bytes of the model's encoding
+}
+type stream struct {
+	C    int  `json:"c"`
+	Pkts []op `json:"pkts"`
+}
+type seg struct {
+	C int `json:"c"`
+	N int `json:"n"`
 }
 type authEnt struct {
 	U string `json:"u"`
@@ -438,6 +449,139 @@ func (x *runner) backgroundIdle() bool {
 	return true
 }
 
+// encode builds the packet of a connect / sub / unsub / pub / send operation and the event that records it.
+func (x *runner) encode(o op) (rec.Ev, []byte) {
+	w := x.w
+	switch o.Op {
+	case "connect":
+		return rec.Ev{"kind": "CONNECT", "client": o.Client, "user": o.User, "pass": o.Pass, "ka": o.KA, "haswill": false, "will": willSpec{T: []string{}}},
+			mq.Connect(o.Client, o.User, o.Pass, o.KA, true, nil)
+	case "sub":
+		fs, qs := []string{}, []int{}
+		for _, f := range o.Fs {
+			fs = append(fs, w.Register(f.F))
+			qs = append(qs, f.Q)
+		}
+		return rec.Ev{"kind": "SUBSCRIBE", "id": o.ID, "fs": o.Fs}, mq.Subscribe(o.ID, fs, qs)
+	case "unsub":
+		fs := []string{}
+		for _, f := range o.Fs {
+			fs = append(fs, w.Register(f.F))
+		}
+		return rec.Ev{"kind": "UNSUBSCRIBE", "id": o.ID, "fs": o.Fs}, mq.Unsubscribe(o.ID, fs)
+	case "pub":
+		payload := o.P
+		if o.Size > len(payload) {
+			payload = payload + "|" + strings.Repeat("x", o.Size-len(payload)-1)
+		}
+		return rec.Ev{"kind": "PUBLISH", "t": o.T, "p": node.PayloadID([]byte(payload)), "q": o.Q, "r": o.R, "id": o.ID, "dup": o.Dup},
+			mq.Publish(w.Register(o.T), []byte(payload), o.Q, o.R, o.Dup, o.ID)
+	case "send":
+		switch o.Kind {
+		case "PINGREQ":
+			return rec.Ev{"kind": o.Kind, "id": o.ID}, mq.PingReq()
+		case "DISCONNECT":
+			return rec.Ev{"kind": o.Kind, "id": o.ID}, mq.Disconnect()
+		}
+	}
+	panic("segs: cannot encode " + o.Op + " " + o.Kind)
+}
+
+// segs: the streams of several connections are handed to the broker in segments, in the order and with the sizes of the plan
+// (a schedule of FramingGen: sizes are in bytes of the model's encoding, mapped to the real packets header byte by header byte and
+// body proportionally).  A packet is recorded as sent when its last byte is; after every segment the driver waits until the
+// broker has read it all.
+func (x *runner) segs(o op) {
+	w := x.w
+	type pk struct {
+		ev         rec.Ev
+		raw        []byte
+		connect    bool
+		o          op
+		start, end int // real offsets in the stream
+	}
+	type st struct {
+		cl     *node.Client
+		raw    []byte
+		pkts   []pk
+		realAt []int // model offset -> real offset
+		mdone  int
+		next   int // next packet to complete
+	}
+	sts := map[int]*st{}
+	for _, sm := range o.Streams {
+		t := &st{realAt: []int{0}}
+		for _, po := range sm.Pkts {
+			po.C = sm.C
+			if po.Op == "connect" {
+				cl := w.Open(sm.C, po.N)
+				x.autoResponder(cl, "all")
+			}
+			ev, raw := x.encode(po)
+			hdr := 1
+			for raw[hdr]&0x80 != 0 {
+				hdr++
+			}
+			hdr++
+			mh := 2
+			if po.Mlen >= 2 { // Base = 2 in the model: two remaining-length bytes
+				mh = 3
+			}
+			if hdr != mh {
+				panic(fmt.Sprintf("segs: packet %s has a %d-byte fixed header, the model's has %d", po.Op, hdr, mh))
+			}
+			base := len(t.raw)
+			for i := 1; i <= mh; i++ {
+				t.realAt = append(t.realAt, base+i)
+			}
+			body := len(raw) - hdr
+			for j := 1; j <= po.Mlen; j++ {
+				t.realAt = append(t.realAt, base+hdr+j*body/po.Mlen)
+			}
+			t.pkts = append(t.pkts, pk{ev: ev, raw: raw, connect: po.Op == "connect", o: po, start: base, end: base + len(raw)})
+			t.raw = append(t.raw, raw...)
+		}
+		t.cl = x.client(sm.C)
+		sts[sm.C] = t
+	}
+	for _, sg := range o.Plan {
+		t := sts[sg.C]
+		r0, r1 := t.realAt[t.mdone], t.realAt[t.mdone+sg.N]
+		t.mdone += sg.N
+		pos := r0
+		completed := false
+		for t.next < len(t.pkts) && t.pkts[t.next].end <= r1 {
+			p := t.pkts[t.next]
+			if p.connect {
+				t.cl.SendConnect(p.ev, t.raw[pos:p.end])
+				ok := w.WaitFor(func() bool { return t.cl.CountRecv(mq.CONNACK) > 0 || t.cl.ClosedByBroker() }, 10*time.Second)
+				if !ok {
+					x.r.Emit(rec.Ev{"op": "stall", "waiting_for": fmt.Sprintf("CONNACK or close on c%d", sg.C)})
+					x.stall = true
+					return
+				}
+				if t.cl.CountRecv(mq.CONNACK) > 0 && t.cl.Received()[0].Code == 0 {
+					t.cl.MarkEstablished()
+				}
+			} else {
+				t.cl.Send(p.ev, t.raw[pos:p.end])
+			}
+			pos = p.end
+			t.next++
+			completed = true
+		}
+		if pos < r1 {
+			t.cl.Conn.ClientWrite(t.raw[pos:r1])
+		}
+		w.WaitFor(func() bool { return t.cl.Conn.Reading() || t.cl.ClosedByBroker() }, 2*time.Second)
+		if completed {
+			if !x.settle() {
+				return
+			}
+		}
+	}
+}
+
 // firstSegment: when the operation asks for it (cut), the first bytes of the packet are written on their own - as a TCP segment of
 // their own would arrive -, the broker is given the time to read them and to wait for more, the operations in B run, and the rest
 // of the packet is returned for the caller to send (and to record: a packet is sent when its last byte is).
@@ -491,6 +635,8 @@ func (x *runner) step(o op) {
 			cl.MarkEstablished()
 		}
 		x.settle()
+	case "segs":
+		x.segs(o)
 	case "open":
 		x.autoResponder(w.Open(o.C, o.N), "none")
 	case "sub":
